@@ -6,7 +6,7 @@ empty-script transactions go through the full sign path."""
 import json
 import random
 
-from .. import core, enc, env, mgr, reqs, tlc, unsignx
+from .. import core, enc, env, longrun, mgr, reqs, tlc, unsignx
 from ..simdev import MODE_SIGNER
 from ..transport import install
 
@@ -92,6 +92,7 @@ def run(ctx):
             info[t["id"]] = {"src": "model", "ops": [[o["k"] + ":" + o["e"] for o in i["ops"]] for i in a["ins"]]}
     res.coverage["behaviours_replayed"] = len(traces)
     n_rand = ctx.pick(600, 20000)
+    history, n_again = [], 0
     for i in range(n_rand):
         tx = enc.random_tx(ctx.rng, n_in=ctx.rng.randint(1, 20 if ctx.rng.random() < 0.1 else 4),
                            n_out=ctx.rng.randint(0, 20 if ctx.rng.random() < 0.1 else 3), big=True)
@@ -104,7 +105,18 @@ def run(ctx):
         traces.append(t)
         info[t["id"]] = {"src": "random", "n_in": len(tx["ins"]), "n_out": len(tx["outs"]),
                          "ops": [[o[0] for o in i["ops"]] for i in tx["ins"]][:4]}
+        # this process has cleared many transactions by now: earlier ones again, at the distances bounded tables have
+        history.append(tx)
+        if i < ctx.pick(300, 1200):
+            for j, d in enumerate(longrun.DISTANCES):
+                if i >= d and (i + j) % 6 == 0:
+                    t2, _ = tx_trace(history[i - d], random.Random("again:%d:%d" % (i, d)))
+                    t2["id"] = len(traces) + 1
+                    traces.append(t2)
+                    info[t2["id"]] = {"src": "again@%d" % d, "n_in": len(history[i - d]["ins"])}
+                    n_again += 1
     res.coverage["random_transactions"] = n_rand
+    res.coverage["transactions_cleared_again_later_in_the_run"] = n_again
     res.coverage["pairs_differing_in_non_final_operations"] = variants
     # undecodable / empty-script transactions through the full sign path
     world, proto = mgr.serving_manager()
